@@ -74,7 +74,8 @@ def cell_rule(chk, rule, enc, lf, know, ordered, items, idxs, what):
         chk.ob(rule, '%s item %d' % (leaf_id(enc, lf), i), ok,
                chk.key(enc.entry, rule, enc.key, 'cell:%d:expected=%s:actual=%s' % (i, exp, got)),
                '%s: byte %d of the packet %s encodes is %s, expected %s (%s)' % (what, i, enc.key, got, exp, '; '.join(guard_text(lf)[:3])),
-               site=site_of(enc), detail={'leaf': dump_leaf(lf, chk.an.prog)})
+               site=site_of(enc), detail={'leaf': dump_leaf(lf, chk.an.prog)},
+               show='%s, byte %d of the packet: derived %s == reference %s' % (enc.entry, i, got, exp))
 
 
 def need_chain(chk, rule, enc, lf, ordered, why):
@@ -113,7 +114,8 @@ def c03(chk):
         chk.ob('C03.a', leaf_id(enc, lf), bad is None,
                chk.key(enc.entry, 'C03.a', enc.key, 'pec:' + str(bad)),
                'packet encoded by %s does not end with the PEC of all preceding bytes: %s' % (enc.key, bad),
-               site=site_of(enc), detail={'leaf': dump_leaf(lf, prog)})
+               site=site_of(enc), detail={'leaf': dump_leaf(lf, prog)},
+               show='last byte written at offset %s is %s; returned length %s' % ( show_term(simp(know, ordered[-1][1])), E.show_atom_w(know, ordered[-1]), show_term(simp(know, length))))
     chk.floor('encoder Ok leaves (plus reported unanalysable paths)', n + getattr(chk, 'unanalysable', 0), 60)
     chk.floor('encoders analysed', len([e for e in encs if in_scope(e)]), N_ENCODERS_FLOOR)
     # funnel: call sites of the pec routine in the crate
@@ -357,7 +359,9 @@ def body_rule(chk, rule, kinds, what):
                    '%s: byte %s of the packet %s encodes is %s, expected %s' % (what, where, enc.key, got, exp),
                    site=site_of(enc), detail={'leaf': dump_leaf(lf, prog)})
         if not mism:
-            chk.ob(rule, '%s body' % leaf_id(enc, lf), True)
+            chk.ob(rule, '%s body' % leaf_id(enc, lf), True,
+                   show='under [%s] bytes 9.. are [%s] == reference [%s], then the PEC' % (
+                       '; '.join(guard_text(lf)[:2]), ' '.join(E.show_atom_w(know, a) for a in body_act[:12]), ' '.join(E.show_item(know, it) for it in body_exp[:12])))
     return encs, n, seen
 
 
@@ -490,7 +494,8 @@ def c16(chk):
         chk.ob('C16.a', leaf_id(enc, lf), ordered is not None,
                chk.key(enc.entry, 'C16.a', enc.key, 'range:' + str(why)),
                '%s does not write exactly the %s bytes it reports: %s' % (enc.key, show_term(simp(know, length)), why),
-               site=site_of(enc), detail={'leaf': dump_leaf(lf, prog)})
+               site=site_of(enc), detail={'leaf': dump_leaf(lf, prog)},
+               show='%d writes form the chain [0, %s) and Ok(%s) is returned' % (len(ordered or []), show_term(simp(know, length)), show_term(simp(know, length))))
         # C16.b
         bad = []
         init = enc.bufname + '@init'
